@@ -126,7 +126,7 @@ Qed.
 Theorem stored_amount_valid x : stored_ok x -> small_dec x -> nn_amount_ok x = true.
 Proof.
   intros (Hc & Hn & He1 & He2) Hs. unfold nn_amount_ok, nn_string_ok, non_negative_dec_from_string.
-  rewrite (parse_to_string x); [| exact Hc | unfold P in He1; lia | exact Hs].
+  rewrite (parse_to_string x); [| exact Hc | unfold P in He1; clear - He1 He2; lia | exact Hs].
   rewrite in_ok_not_negative; [reflexivity|]. split; [exact Hc|]. split; [exact Hn|exact He1].
 Qed.
 
@@ -140,7 +140,7 @@ Proof.
   - unfold to_string. cbn [dneg dcoef dexp]. destruct (Z_to_dec_spec z H0) as (Hne & _ & _).
     destruct (Z_to_dec z); [congruence|reflexivity].
   - unfold nn_string_ok, non_negative_dec_from_string.
-    rewrite (parse_to_string (mkDec false z 0)); [reflexivity | exact H0 | cbn; lia | exact Hs].
+    rewrite (parse_to_string (mkDec false z 0)); [reflexivity | exact H0 | cbn; clear; lia | exact Hs].
 Qed.
 
 (* sell-order quantities: a string that parses to a positive in-range decimal *)
